@@ -1,7 +1,7 @@
 (* Property C08 - only statements, each closed by [exact]. *)
-From Coq Require Import NArith List Bool Sorting.Sorted Permutation.
+From Coq Require Import NArith ZArith List Bool Floats Sorting.Sorted Permutation.
 Import ListNotations.
-Require Import UV.C08.Model UV.C08.Proofs UV.C08.Figures UV.C08.Open UV.C08.Order UV.C08.Checker UV.C08.OpenSpec UV.C08.SortChecker UV.C08.Merge UV.C08.Lost UV.C08.LostSpec UV.C08.Inherit UV.C08.SelfDiff.
+Require Import UV.C08.Model UV.C08.Proofs UV.C08.Figures UV.C08.Open UV.C08.Order UV.C08.Checker UV.C08.OpenSpec UV.C08.SortChecker UV.C08.Merge UV.C08.Lost UV.C08.LostSpec UV.C08.Inherit UV.C08.SelfDiff UV.C08.Stdv UV.C08.StdvFacts.
 Local Open Scope N_scope.
 
 (* The accumulation automaton of fstack_account_time + report_update_node (uint64 arithmetic, clamp
@@ -264,3 +264,27 @@ Theorem C08_lost_after_inherited_legacy_refuted :
   /\ (exists n, find_node (report lost_case) 2 = Some n /\ smax (n_total n) = 1).
 Proof. exact lost_after_inherited_legacy_refuted. Qed.
 Print Assumptions C08_lost_after_inherited_legacy_refuted.
+
+(* The stdv column (model: Stdv.v, the machine's binary64 arithmetic).  Before the fixes 5fe3294, b241d75, a863f9f:
+   sigma/sqrt(calls)/mean instead of the documented sigma/mean (35.36 % for calls of 100 and 300 ns; now 50.00 %), *)
+Theorem C08_stdv_formula_legacy_refuted :
+  hundredths (stdv_legacy (100 * 100 + 300 * 300) 0 200 2) = Some 3536%Z
+  /\ hundredths (stdv_of (sq 100 + sq 300) 0 400 2) = Some 5000%Z
+  /\ ok_stdv 5000 [100; 300]%N = true /\ ok_stdv 3536 [100; 300]%N = false.
+Proof. exact stdv_formula_legacy_refuted. Qed.
+Print Assumptions C08_stdv_formula_legacy_refuted.
+
+(* squares wrapping at 2^64 from 4.29 s on (NaN for calls of 5 s and 6 s; now 9.09 %), *)
+Theorem C08_stdv_overflow_legacy_refuted :
+  let a := 5000000000%N in let b := 6000000000%N in
+  is_nan (stdv_legacy (add64 ((a * a) mod M64) ((b * b) mod M64)) 0 5500000000 2) = true
+  /\ hundredths (stdv_of (sq a + sq b) 0 (a + b) 2) = Some 909%Z
+  /\ ok_stdv 909 [a; b] = true.
+Proof. exact stdv_overflow_legacy_refuted. Qed.
+Print Assumptions C08_stdv_overflow_legacy_refuted.
+
+(* and 0/0 = NaN for a function whose calls all took 0 ns (now 0.00 %). *)
+Theorem C08_stdv_zero_mean_legacy_refuted :
+  is_nan (stdv_legacy 0 0 0 3) = true /\ hundredths (stdv_of 0 0 0 3) = Some 0%Z /\ ok_stdv 0 [0; 0; 0]%N = true.
+Proof. exact stdv_zero_mean_legacy_refuted. Qed.
+Print Assumptions C08_stdv_zero_mean_legacy_refuted.
